@@ -450,7 +450,9 @@ def describe_container(engine, st, base, how):
         ln = z3.simplify(base.c[0])
         if z3.is_int_value(ln) and ln.as_long() <= 4:
             return Unroll([engine.elem(base, z3.IntVal(p)) for p in range(ln.as_long())])
-        return PosIter(base.c[0], lambda p: engine.elem(base, p))
+        pi = PosIter(base.c[0], lambda p: engine.elem(base, p))
+        pi.base = base
+        return pi
     if isinstance(t, Ty.ODict):
         n = len(t.keys_t.sorts())
         keys = V(t.keys_t, base.c[:n])
